@@ -54,6 +54,7 @@ type copyCase struct {
 	dstRef  string
 	cancel  bool
 	label   string
+	mount   bool // the destination is a registry.Mounter and MountFrom names one or two repositories for every blob
 	fsFault int // >0: while this node (id+1) is read from the source, its blob path in an OCI destination becomes a directory
 }
 
@@ -138,6 +139,16 @@ func runCopy(mode string, seed int64, tier string, sc *Script) map[string]any {
 			opts := r.options(cc.conc)
 			isrc := &instrSrc{inner: src, r: r}
 			idst := &instrTarget{instrDst: instrDst{inner: dstT, r: r}, t: dstT}
+			var dstArg oras.Target = idst
+			if cc.mount {
+				dstArg = &mountTarget{instrTarget: idst, seed: seed + int64(caseNo)}
+				opts.MountFrom = func(ctx context.Context, d ocispec.Descriptor) ([]string, error) {
+					if cc.u.IDOf(d)%2 == 0 {
+						return []string{"test/repo1"}, nil
+					}
+					return []string{"test/repo1", "test/repo2"}, nil
+				}
+			}
 			sc.Def("cp begin roots=%s pre=%s", fmtInts(cc.roots), pre)
 			sc.Count(fmt.Sprintf("conc:%d", cc.conc))
 			sc.Count(fmt.Sprintf("nodes:%d", (len(cc.u.Nodes)/5)*5))
@@ -148,9 +159,9 @@ func runCopy(mode string, seed int64, tier string, sc *Script) map[string]any {
 				if cc.useCopy {
 					srcT := &srcTarget{instrSrc: *isrc, t: src}
 					_ = src.Tag(ctx, cc.u.Nodes[cc.roots[0]].Desc, "srcref")
-					_, runErr = oras.Copy(runCtx, srcT, "srcref", idst, cc.dstRef, oras.CopyOptions{CopyGraphOptions: opts})
+					_, runErr = oras.Copy(runCtx, srcT, "srcref", dstArg, cc.dstRef, oras.CopyOptions{CopyGraphOptions: opts})
 				} else if len(cc.roots) == 1 {
-					runErr = oras.CopyGraph(runCtx, isrc, idst, cc.u.Nodes[cc.roots[0]].Desc, opts)
+					runErr = oras.CopyGraph(runCtx, isrc, dstArg, cc.u.Nodes[cc.roots[0]].Desc, opts)
 				}
 			}()
 			select {
@@ -180,6 +191,16 @@ func runCopy(mode string, seed int64, tier string, sc *Script) map[string]any {
 			}
 			if r.maxDstInFl > maxDst {
 				maxDst = r.maxDstInFl
+			}
+			if mode == "C04" && len(faults) > 0 && atomic.LoadInt32(&r.fired) > 0 {
+				v := "that-error"
+				if runErr == nil {
+					v = "nil"
+				} else if !errors.Is(runErr, errInjected) {
+					v = "another-error"
+				}
+				sc.Op(v, "cp cberr op=%s", faults[0].op)
+				sc.Count("callback-error:" + faults[0].op)
 			}
 			if mode == "C04" {
 				over := "ok"
@@ -292,7 +313,49 @@ func runCopy(mode string, seed int64, tier string, sc *Script) map[string]any {
 				cc.faults = append(cc.faults, f)
 			}
 			cc.label = "faulty-" + string(cc.dst)
+			if i%3 == 2 {
+				cc.mount = true
+				cc.label = "faulty-mount-" + string(cc.dst)
+				// callbacks of blobs are where the mount path differs
+				needed := downClosure(cc.u, cc.roots)
+				var blobs []int
+				for _, k := range needed {
+					if !cc.u.Nodes[k].Kind.IsManifest() {
+						blobs = append(blobs, k)
+					}
+				}
+				if len(blobs) > 0 {
+					cc.faults = []fault{{op: []string{"postCopy", "preCopy", "mounted", "push", "fetch"}[rng.Intn(5)], node: blobs[rng.Intn(len(blobs))], mode: "before"}}
+					cc.cancel = false
+				}
+			}
 		case "C04":
+			cc.mount = i%3 == 1
+			if i%2 == 1 {
+				// a callback returns an error: the copy must abort with that error
+				needed := downClosure(cc.u, cc.roots)
+				nd := needed[rng.Intn(len(needed))]
+				ops := []string{"preCopy", "postCopy", "skipped"}
+				if cc.mount {
+					// prefer a blob, and the callback its mount outcome will reach
+					var blobs []int
+					for _, k := range needed {
+						if !cc.u.Nodes[k].Kind.IsManifest() && cc.u.Nodes[k].Kind != KForeign {
+							blobs = append(blobs, k)
+						}
+					}
+					if len(blobs) > 0 {
+						nd = blobs[rng.Intn(len(blobs))]
+						if (int64(nd)*7+seed+int64(caseNo))%3 == 0 {
+							ops = []string{"mounted"}
+						} else {
+							ops = []string{"postCopy", "preCopy"}
+						}
+					}
+				}
+				cc.pre = nil // nothing pre-populated: the callback is reached
+				cc.faults = []fault{{op: ops[rng.Intn(len(ops))], node: nd, mode: "before"}}
+			}
 			cc.delay = time.Duration(100+rng.Intn(400)) * time.Microsecond
 			cc.label = "gauged-" + string(cc.dst)
 		}
